@@ -8,6 +8,8 @@ tera/src/parsing/lexer.rs token by token (before and after the filter) and outpu
 byte on every run.  Helper lemmas: Lemmas/{LexInv,LexLoop,NoStart,WsFilterLemmas}.lean.
 -/
 import TeraModel.Lemmas.C08Lemmas
+import TeraModel.Lemmas.Forward
+import TeraModel.Lemmas.Respell
 import TeraModel.Lemmas.RawLemmas
 import TeraModel.Lemmas.TrimLemmas
 import TeraModel.Lemmas.LexProgress
@@ -112,6 +114,30 @@ theorem text_written_verbatim (s : Bytes) (sp : Span) (rest : List Item) :
   simp only [skeletonGo]
   cases skeletonGo .text rest <;> cases s <;> simp [Skel.map]
 
+/-! ## Forward direction: what a given spelling lexes to -/
+
+/-- **text_forward.**  In `Template` state, a non-empty literal text `s` none of whose bytes is a
+delimiter byte, followed by the end of the source or by a start marker, is emitted as exactly one
+`Content` token holding `s`, and the tokenizer continues right after it (accepted delimiters). -/
+theorem text_forward (d : Delims) (hd : d.accepted = true) (p0 : Pos) (st : List State) (s R : Bytes)
+    (hrest : p0.rest = s ++ R) (hne : s ≠ []) (hs : ∀ b ∈ s, b ∉ delimBytes d)
+    (hR : StartsWithMarker d R) :
+    ∃ p, step d p0 (.template :: st) = .emit (.content s) (mkSpan p0 p) p (.template :: st) ∧
+      p.rest = R ∧ p.byte = p0.byte + s.length :=
+  text_forward_lemma d hd p0 st s R hrest hne hs hR
+
+/-- **comment_forward.**  In `Template` state a comment `comment_start [-] ␠ body ␠ [-] comment_end`
+whose body contains no delimiter byte (and where neither the space nor `-` is a delimiter byte) is
+consumed as exactly one `Comment(l, r)` token, whatever else the body contains, and the tokenizer
+continues right after `comment_end`; by `comments_produce_nothing` it then yields an empty text. -/
+theorem comment_forward (d : Delims) (hd : d.accepted = true) (p0 : Pos) (st : List State)
+    (l r : Bool) (body R : Bytes)
+    (hrest : p0.rest = d.commentStart ++ dash l ++ [0x20] ++ body ++ [0x20] ++ dash r ++ d.commentEnd ++ R)
+    (hv : valid p0.rest = true) (hbody : ∀ b ∈ body, b ∉ delimBytes d)
+    (hsp : 0x20 ∉ delimBytes d) (hdash : 0x2D ∉ delimBytes d) :
+    ∃ p, step d p0 (.template :: st) = .emit (.comment l r) (mkSpan p0 p) p (.template :: st) ∧ p.rest = R :=
+  comment_forward_lemma d hd p0 st l r body R hrest hv hbody hsp hdash
+
 /-! ## Raw blocks -/
 
 /-- **raw_verbatim.**  For every source and delimiter set: whenever the tokenizer (in `Template`
@@ -184,101 +210,77 @@ theorem white_space_table (c : Nat) :
 
 /-! ## Re-spelling with other delimiters -/
 
-/-- a template independent of the delimiter spelling -/
-inductive Seg where
-  | text (s : Bytes)
-  | var (dashL dashR : Bool) (expr : Bytes)
-  | tag (dashL dashR : Bool) (body : Bytes)
-  | comment (dashL dashR : Bool) (body : Bytes)
-
-def dash (b : Bool) : Bytes := if b then [0x2D] else []
-
-def spellSeg (d : Delims) : Seg → Bytes
-  | .text s => s
-  | .var l r e => d.variableStart ++ dash l ++ [0x20] ++ e ++ [0x20] ++ dash r ++ d.variableEnd
-  | .tag l r b => d.blockStart ++ dash l ++ [0x20] ++ b ++ [0x20] ++ dash r ++ d.blockEnd
-  | .comment l r b => d.commentStart ++ dash l ++ [0x20] ++ b ++ [0x20] ++ dash r ++ d.commentEnd
-
-def spell (d : Delims) (segs : List Seg) : Bytes := segs.flatMap (spellSeg d)
-
-def segPayload : Seg → Bytes
-  | .text s => s
-  | .var _ _ e => e
-  | .tag _ _ b => b
-  | .comment _ _ b => b
-
-/-- "the delimiters of `d` do not occur in its text or expressions", read strongly and
-spelling-independently: no payload byte is a byte of any delimiter of `d`; neither the space used
-by `spell` nor `-` is a delimiter byte; expressions and tag bodies contain no string quote (an
-unterminated string would scan across the end delimiter, making its payload depend on the
-spelling) and tag bodies do not mention `raw` (raw blocks are a different path). -/
-def Clean (d : Delims) (segs : List Seg) : Prop :=
-  0x20 ∉ delimBytes d ∧ 0x2D ∉ delimBytes d ∧
-  ∀ s ∈ segs, (∀ b ∈ segPayload s, b ∉ delimBytes d) ∧
-    (match s with
-     | .var _ _ e => ∀ q ∈ Generated.stringQuotes, q ∉ e
-     | .tag _ _ b => (∀ q ∈ Generated.stringQuotes, q ∉ b) ∧ ¬ Occurs Generated.rawName b
-     | _ => True)
-
-/-- **respell_invariant, full statement** (not proved in general; decided on the implementation by
-the respelling differential of the harness, about 9 000 template pairs per quick run): the same
-template spelled under two accepted delimiter sets, both clean for it, lexes to the same tokens
-(spans aside). -/
+/-- **respell_invariant, full statement**: the same template (a list of literal texts,
+`{{ expr }}` groups, `{% body %}` tags and comments, each with any `-` placement) spelled under two
+accepted delimiter sets that are both clean for it (`Clean`: no payload byte is a delimiter byte;
+space, `-`, ASCII whitespace and the letters of `raw` are not delimiter bytes; expressions and tag
+bodies hold no string quote, tag bodies do not mention `raw`) lexes to the same tokens, spans
+aside. -/
 def respell_invariant_full : Prop :=
   ∀ (d1 d2 : Delims) (segs : List Seg), d1.accepted = true → d2.accepted = true →
     Clean d1 segs → Clean d2 segs → valid (spell d1 segs) = true → valid (spell d2 segs) = true →
     (tokenize d1 (spell d1 segs)).tokens.map (·.1) = (tokenize d2 (spell d2 segs)).tokens.map (·.1)
 
-/-- **respell_invariant, partial**: proved for templates made of literal text only (extra
-hypothesis `∀ s ∈ segs, s is text`): both spellings are the same bytes and lex to the single
-`Content` token holding them.  Missing for the general statement: forward lemmas describing what
-the tokenizer does on a *given* tag / expression / comment spelling (the theorems above go from
-tokens back to the source). -/
-theorem respell_invariant_partial (d1 d2 : Delims) (segs : List Seg) (hd1 : d1.accepted = true)
+/-- **respell_invariant.**  The full statement holds: re-spelling a template with other delimiters
+does not change the tokens the parser sees — before the whitespace filter, after it, and hence
+the literal-text output (`skeleton`).  Proof: a simulation of the two tokenizer runs segment by
+segment (Lemmas/{Forward,ExprLocal,LexCanon,RespellInTag,Respell}.lean); inside `{{ }}` / `{% %}`
+the expression lexer does not depend on the delimiters, is local (never looks past the next
+space) and position-independent. -/
+theorem respell_invariant : respell_invariant_full := by
+  intro d1 d2 segs hd1 hd2 hc1 hc2 hv1 hv2
+  have h := respell_tokens hd1 hd2 segs hc1 hc2 hv1 hv2
+  simp only [tokenize, whitespaceFilter]
+  exact filterGo_tokens_congr _ _ false h
+
+/-- hence both spellings produce the same literal-text output -/
+theorem respell_same_output (d1 d2 : Delims) (segs : List Seg) (hd1 : d1.accepted = true)
     (hd2 : d2.accepted = true) (hc1 : Clean d1 segs) (hc2 : Clean d2 segs)
-    (htext : ∀ s ∈ segs, ∃ x, s = .text x) :
-    spell d1 segs = spell d2 segs ∧
-    (tokenize d1 (spell d1 segs)).tokens.map (·.1) = (tokenize d2 (spell d2 segs)).tokens.map (·.1) ∧
-    skeleton (tokenize d1 (spell d1 segs)).tokens = .ok (spell d1 segs) ∧
-    skeleton (tokenize d2 (spell d2 segs)).tokens = .ok (spell d1 segs) := by
-  have hspell : ∀ d : Delims, spell d segs = segs.flatMap segPayload := by
-    intro d
-    unfold spell
-    clear hc1 hc2
-    induction segs with
-    | nil => rfl
-    | cons s tl ih =>
-      obtain ⟨x, rfl⟩ := htext _ (List.mem_cons_self)
-      simp only [List.flatMap_cons, spellSeg, segPayload]
-      rw [ih (fun s hs => htext s (List.mem_cons_of_mem _ hs))]
-  have hclean : ∀ d : Delims, Clean d segs → ∀ b ∈ segs.flatMap segPayload, b ∉ delimBytes d := by
-    intro d hc b hb
-    obtain ⟨s, hs, hbs⟩ := List.mem_flatMap.mp hb
-    exact (hc.2.2 s hs).1 b hbs
-  have hne : ∀ d : Delims, d.accepted = true →
-      d.variableStart ≠ [] ∧ d.blockStart ≠ [] ∧ d.commentStart ≠ [] := by
-    intro d hd
-    obtain ⟨_, h1, _, h3, _, h5, _⟩ := accepted_facts hd
-    refine ⟨?_, ?_, ?_⟩
-    · intro h; rw [h] at h3; simp at h3
-    · intro h; rw [h] at h1; simp at h1
-    · intro h; rw [h] at h5; simp at h5
-  obtain ⟨a1, a2, a3⟩ := hne d1 hd1
-  obtain ⟨b1, b2, b3⟩ := hne d2 hd2
-  have n1 : NoStart d1 (spell d1 segs) := by
-    rw [hspell]; exact noStart_of_disjoint d1 _ a1 a2 a3 (hclean d1 hc1)
-  have n2 : NoStart d2 (spell d2 segs) := by
-    rw [hspell]; exact noStart_of_disjoint d2 _ b1 b2 b3 (hclean d2 hc2)
-  have e : spell d1 segs = spell d2 segs := by rw [hspell d1, hspell d2]
-  refine ⟨e, ?_, (skeleton_noStart n1).2, by rw [e]; exact (skeleton_noStart n2).2⟩
-  by_cases hnil : spell d1 segs = []
-  · have hnil2 : spell d2 segs = [] := by rw [← e]; exact hnil
-    rw [hnil, hnil2]
-    simp [tokenize, whitespaceFilter, basicTokenize_nil, filterGo]
-  · obtain ⟨sp1, hb1⟩ := basicTokenize_noStart n1 hnil
-    obtain ⟨sp2, hb2⟩ := basicTokenize_noStart n2 (by rw [← e]; exact hnil)
-    simp only [tokenize, whitespaceFilter, hb1, hb2, filterGo, handleContent, peekTrimsEnd]
-    simp [e]
+    (hv1 : valid (spell d1 segs) = true) (hv2 : valid (spell d2 segs) = true) :
+    skeleton (tokenize d1 (spell d1 segs)).tokens = skeleton (tokenize d2 (spell d2 segs)).tokens :=
+  skeleton_tokens_congr _ _ (respell_invariant d1 d2 segs hd1 hd2 hc1 hc2 hv1 hv2)
+
+/-- `Clean` is satisfiable for two quite different delimiter sets at once:
+`a {{- x | f -}} b{# c #}{% if y %}` under `{{ }} {% %} {# #}` and under `<< >> <% %> <# #>` -/
+example : ∃ segs : List Seg,
+    Clean Generated.defaultDelims segs ∧
+    Clean { blockStart := [0x3C, 0x25], blockEnd := [0x25, 0x3E], variableStart := [0x3C, 0x3C],
+            variableEnd := [0x3E, 0x3E], commentStart := [0x3C, 0x23], commentEnd := [0x23, 0x3E] } segs ∧
+    segs.length = 5 := by
+  refine ⟨[.text [0x61, 0x20], .var true true [0x78, 0x20, 0x7C, 0x20, 0x66], .text [0x20, 0x62],
+           .comment false false [0x63], .tag false false [0x69, 0x66, 0x20, 0x79]], ?_, ?_, rfl⟩
+  · refine ⟨by decide, by decide, by decide, by decide, by decide, ?_⟩
+    intro s hs
+    simp only [List.mem_cons, List.not_mem_nil, or_false] at hs
+    rcases hs with rfl | rfl | rfl | rfl | rfl
+    · trivial
+    · decide
+    · trivial
+    · trivial
+    · refine ⟨by decide, ?_⟩
+      rintro ⟨pre, post, h⟩
+      have hl := congrArg List.length h
+      simp [Generated.rawName] at hl
+      match pre with
+      | [] => simp [Generated.rawName] at h
+      | [_] => simp [Generated.rawName] at h
+      | _ :: _ :: _ => simp at hl; omega
+  · refine ⟨by decide, by decide, by decide, by decide, by decide, ?_⟩
+    intro s hs
+    simp only [List.mem_cons, List.not_mem_nil, or_false] at hs
+    rcases hs with rfl | rfl | rfl | rfl | rfl
+    · trivial
+    · decide
+    · trivial
+    · trivial
+    · refine ⟨by decide, ?_⟩
+      rintro ⟨pre, post, h⟩
+      have hl := congrArg List.length h
+      simp [Generated.rawName] at hl
+      match pre with
+      | [] => simp [Generated.rawName] at h
+      | [_] => simp [Generated.rawName] at h
+      | _ :: _ :: _ => simp at hl; omega
 
 /-! ## Non-vacuity and spot checks -/
 
